@@ -173,6 +173,12 @@ func (s *memStore) Save(d *store.PersistedData) error {
 	return nil
 }
 
+func (s *memStore) saves() int {
+	s.mu.Lock()
+	defer s.mu.Unlock()
+	return s.n
+}
+
 type memOutput struct{}
 
 func (memOutput) Writer(jobID, taskName, outputName string) (io.WriteCloser, error) {
@@ -424,7 +430,7 @@ func TestC13(t *testing.T) {
 		}
 		nontrivial := stats.maxKinds >= 3 && stats.saveVsRd > 0
 		col.Add(fmt.Sprintf("%d/%v/%d/%v", nClients, delays, shutdownAfter, plans), nontrivial, classes, int(opsDone),
-			map[string]interface{}{"clients": nClients, "start_delays_ms": delays, "shutdown_after_ops": shutdownAfter, "ops": strings.Join(kinds, " "), "max_kinds_in_flight": stats.maxKinds, "save_reader_overlaps": stats.saveVsRd, "saves_received": st.n})
+			map[string]interface{}{"clients": nClients, "start_delays_ms": delays, "shutdown_after_ops": shutdownAfter, "ops": strings.Join(kinds, " "), "max_kinds_in_flight": stats.maxKinds, "save_reader_overlaps": stats.saveVsRd, "saves_received": st.saves()})
 	})
 }
 
